@@ -143,6 +143,8 @@ def perturbations(gtirb, rng, ir):
                 yield "interval.size", lambda x, X=X: setattr(
                     X(x), "size", X(x).size + 1)
                 yield "interval.contents", lambda x, X=X: flip_contents(X(x))
+                yield "interval trailing zero byte", lambda x, X=X: \
+                    trailing_zero(X(x))
                 yield "interval add block", lambda x, X=X: G.DataBlock(
                     size=1, byte_interval=X(x))
                 yield "interval add expr", lambda x, X=X, M=M: add_expr(
@@ -185,6 +187,9 @@ def perturbations(gtirb, rng, ir):
         yield "edge label", lambda x: relabel(G, x)
     nodes = list(ir.cfg_nodes)
     if nodes:
+        yield "edge add+remove", lambda x: add_discard_edge(G, x, False)
+        yield "edge add+remove (isolated ends)", lambda x: add_discard_edge(
+            G, x, True)
         yield "edge add", lambda x: x.cfg.add(G.Edge(
             sorted(x.cfg_nodes, key=lambda n: n.uuid.bytes)[0],
             sorted(x.cfg_nodes, key=lambda n: n.uuid.bytes)[-1],
@@ -212,6 +217,39 @@ def references_into(ir, m):
         if id(e.source) in inside or id(e.target) in inside:
             return True
     return False
+
+
+def trailing_zero(x):
+    """the stored bytes grow or shrink by one 0x00 at the end, inside the
+    interval's size: `contents` and `initialized_size` differ, the 'memory
+    image' does not"""
+    n = len(x.contents)
+    if n < x.size:
+        x.initialized_size = n + 1
+    elif n and x.contents[-1] == 0:
+        x.initialized_size = n - 1
+    else:
+        raise ValueError("not applicable")
+
+
+def add_discard_edge(G, x, isolated):
+    """an edge added and removed again: the set of edges is what it was
+    (whatever the graph library keeps of the endpoints)"""
+    nodes = sorted(x.cfg_nodes, key=lambda n: n.uuid.bytes)
+    used = set()
+    for e in x.cfg:
+        used.add(id(e.source))
+        used.add(id(e.target))
+    free = [n for n in nodes if id(n) not in used]
+    if isolated and len(free) < 1:
+        raise ValueError("not applicable")
+    a = free[0] if isolated else nodes[0]
+    b = free[-1] if isolated else nodes[-1]
+    e = G.Edge(a, b, G.Edge.Label(G.Edge.Type.Syscall, True, True))
+    if e in x.cfg:
+        raise ValueError("not applicable")
+    x.cfg.add(e)
+    x.cfg.remove(e)
 
 
 def flip_contents(x):
